@@ -98,6 +98,10 @@ def replay(seed, idx, op, desc):
 
 def run(tier, seed):
     chk = Check("C17", tier, seed, "other")
+    from ..kernels import c01_numpy_wrappers
+    from ..kernels.base import run_kernel
+    for k in [q for q in c01_numpy_wrappers.KERNELS if q.prop == "C17"]:
+        chk.add_kernel(run_kernel(k, tier))
     ok, sites, failing = frame.rule_template()
     chk.add_rule("C17.S.template", ok, sites, failing)
     n = 10 if tier == "quick" else 400
